@@ -106,9 +106,53 @@ def alloc_correspondence(ctx):
                 break
 
 
+def inmemory_probe(ctx):
+    """after a call that failed for lack of space, in the SAME session: every block the volume owns (decoder's ownership of the
+    image dumped right after the call) must still be marked allocated in the library's in-memory bitmap - a wrong release in an
+    error path is invisible on disk until the next bitmap write"""
+    import subprocess, os
+    from . import c08
+    n = 28 if ctx.tier == "quick" else 280
+    jobs = [c08.forced_history(ctx) for _ in range(n)]
+
+    def one(job):
+        L, first, nb, meta = job
+        L = [l for l in L if l != "spectree"]
+        k = L.index("dump $W/img2")
+        L1 = L[: k + 1]
+        rc, out, err, wd = common.run_script(ctx, "\n".join(L1) + "\n")
+        img = os.path.join(wd, "img2")
+        if rc != 0 or not os.path.exists(img):
+            return (job, None, None, None)
+        r = subprocess.run([ctx.ocaml("adfm"), "decode", img, "0", str(nb), "1"], stdout=subprocess.PIPE, text=True, preexec_fn=common.big_stack)
+        ls = r.stdout.splitlines()
+        import shutil
+        shutil.rmtree(wd, ignore_errors=True)
+        if not ls or not ls[0].startswith("OK"):
+            return (job, "undecodable", ls[:1], None)
+        owned = [int(x) for x in ls[1].split()[1].split(",")]
+        L2 = L1[:-1] + ["isfree %d" % b for b in owned]
+        rc2, out2, err2, wd2 = common.run_script(ctx, "\n".join(L2) + "\n")
+        res2 = common.parse_results(out2)
+        shutil.rmtree(wd2, ignore_errors=True)
+        bad = [b for i, b in enumerate(owned) if (res2.get(len(L1) + i) or ["?"])[-1] != "ok 0"]
+        return (job, "ok", bad, L2)
+    for (job, st, bad, L2) in common.pmap(one, jobs):
+        L, first, nb, meta = job
+        ctx.count(("inmemory", meta.get("kind"), meta.get("fail_from_request"), meta.get("flavour")))
+        ctx.bump("inmemory_bitmap_probe")
+        if st == "ok" and bad:
+            ctx.fail("oracle", "a block the volume owns is marked free in the in-memory bitmap after a call that failed for lack of space",
+                     {"meta": meta, "blocks": bad[:8], "script": L2[: L2.index("allocfail 0") + 2] if "allocfail 0" in L2 else L2[:40]},
+                     expected="every owned block allocated", actual="free: %s" % bad[:8])
+            if len(ctx.failures) > 3:
+                break
+
+
 def run(ctx):
     proof = common.proof_status(ctx)
     alloc_correspondence(ctx)
+    inmemory_probe(ctx)
     tf = common.translator_failures(ctx, NEEDED)
     if tf:
         proof["problems"].append("translator could not translate: %s" % tf)
@@ -120,10 +164,20 @@ def run(ctx):
     b += [("dircache-directory-cycle", c05.cache_dir_cycle) for _ in range(10 if ctx.tier == "quick" else 150)]
     b += [("dircache-empty-a-block", c07.block_sweep) for _ in range(4 if ctx.tier == "quick" else 40)]
     b += [("dircache-stress", c07.cache_history) for _ in range(8 if ctx.tier == "quick" else 150)]
+    # exhaustion: error paths give back what they took - and nothing else
+    from . import c08
+
+    def wrap(fn):
+        def g(ctx):
+            L, first, nb, meta = fn(ctx)
+            return L, first, nb, meta, {"spec_patch": c08.spec_patch, "ignore_names": c08.FILLERS}
+        return g
+    b += [("forced-exhaustion", wrap(c08.forced_history)) for _ in range(28 if ctx.tier == "quick" else 560)]
+    b += [("extension-boundary-exhaustion", wrap(c08.boundary_history)) for _ in range(6 if ctx.tier == "quick" else 100)]
     b += [("namespace", c02.ns_history) for _ in range(8 if ctx.tier == "quick" else 200)]
     b += [("rdb-partition", c03.part_history) for _ in range(4 if ctx.tier == "quick" else 80)]
     rule = ("bit-index calls on volumes with 1..3 bitmap pages at page/word boundaries; histories (multi-page hardfiles crossing the 4064-block page boundary, "
-            "file and namespace histories, DIRCACHE directories grown over several cache blocks and emptied, RDB partition with non-zero first block) judged at every dump by the extracted decoder: each reachable block reached once, "
+            "file and namespace histories, forced and real exhaustion episodes, DIRCACHE directories grown over several cache blocks and emptied, RDB partition with non-zero first block) judged at every dump by the extracted decoder: each reachable block reached once, "
             "in range, marked allocated in the ON-DISK bitmap (dumps are taken with and without remount); distinct = distinct call / script")
     return histcheck.explore(ctx, proof, {"C04"}, b, rule, ["quiescent = no handle open for writing", "hardfiles with an even block count (see C14)"])
 
